@@ -8,6 +8,8 @@
   of points (no bound anywhere).
 -/
 import Influx.Lemmas.WindowAggFolders
+import Influx.Lemmas.WindowAggFirst
+import Influx.Lemmas.WindowAggLast
 
 namespace Influx.Props.C20
 open Influx.WindowAgg Influx.Spec.C20
@@ -116,6 +118,146 @@ theorem C20_block_independent (B1 B2 : Nat) (h1 : 1 ≤ B1) (h2 : 1 ≤ B2) (o :
   obtain ⟨a1, p1, q1, _⟩ := C20_fold B1 h1 o agg hagg w hw cs1 hne1 hs fuel hfuel
   obtain ⟨a2, p2, q2, _⟩ := C20_fold B2 h2 o agg hagg w hw cs2 hne2 (heq ▸ hs) fuel (heq ▸ hfuel)
   exact ⟨a1, a2, p1, p2, by rw [q1, q2, heq]⟩
+
+/-! ### first / last -/
+
+/-- **first, windowed**: chunking / block independence and equality with the statement. -/
+theorem C20_first (B : Nat) (hB : 1 ≤ B) (o : Ops α) (w : Win) (hw : w.OK) (hz : w.isZero = false)
+    (chunks : List (List (Pt α))) (hne : ∀ c ∈ chunks, c ≠ []) (hs : Sorted chunks.flatten)
+    (fuel : Nat) (hfuel : chunks.flatten.length < fuel) :
+    ∃ arrs, drain (Cursor.next B o w) fuel (Cursor.new .first w chunks) = some arrs ∧
+      arrs.flatten = aggSpec o .first w.stop chunks.flatten ∧ (∀ a ∈ arrs, a ≠ []) := by
+  have hnew : Cursor.new .first w chunks = Cursor.first ⟨⟨[], chunks⟩, none⟩ := by simp [Cursor.new, hz]
+  rw [hnew, drain_sim (Cursor.next B o w) (fun s => some (First.next B w s)) Cursor.first (fun _ => rfl)]
+  obtain ⟨arrs, h1, h2, h3⟩ := First.drain_spec B hB w fuel ⟨⟨[], chunks⟩, none⟩ hne (by simpa [St.rest] using hfuel)
+  refine ⟨arrs, h1, ?_, h3⟩
+  rw [h2]
+  simpa [St.rest] using First.seqF_eq_aggSpec o w hw hz chunks.flatten hs
+
+/-- **last, windowed**: the Go code does not hit its index panic, and the arrays concatenate to
+    the last point of every window. -/
+theorem C20_last (B : Nat) (hB : 1 ≤ B) (o : Ops α) (w : Win) (hw : w.OK) (hz : w.isZero = false)
+    (chunks : List (List (Pt α))) (hne : ∀ c ∈ chunks, c ≠ []) (hs : Sorted chunks.flatten)
+    (fuel : Nat) (hfuel : chunks.flatten.length < fuel) :
+    ∃ arrs, drain (Cursor.next B o w) fuel (Cursor.new .last w chunks) = some arrs ∧
+      arrs.flatten = aggSpec o .last w.stop chunks.flatten ∧ (∀ a ∈ arrs, a ≠ []) := by
+  have hnew : Cursor.new .last w chunks = Cursor.last ⟨⟨[], chunks⟩, none⟩ := by simp [Cursor.new, hz]
+  have hstep : ∀ t : Last.State α, Cursor.next B o w (Cursor.last t) =
+      (Last.next B w t).map (fun r => (Cursor.last r.1, r.2)) := fun _ => rfl
+  rw [hnew, drain_sim (Cursor.next B o w) (Last.next B w) Cursor.last hstep]
+  have hspec := Last.seqL_eq_aggSpec o w hw hz chunks.flatten hs
+  exact Last.drain_spec B hB w fuel ⟨⟨[], chunks⟩, none⟩ _ hne (by simpa [St.rest] using hfuel)
+    (by simpa [St.rest] using hspec)
+
+/-- the statement for one window over everything: first = first point, last = last point -/
+theorem aggSpec_const_first (o : Ops α) (c : Int) (p : Pt α) (ps : List (Pt α)) :
+    aggSpec o .first (fun _ => c) (p :: ps) = [p] := by
+  rw [aggSpec]
+  have hf : ∀ l : List (Pt α), List.filter (fun _ : Pt α => false) l = [] :=
+    fun l => List.filter_eq_nil_iff.mpr (by simp)
+  simp [aggregate, hf, aggSpec]
+
+theorem aggSpec_const_last (o : Ops α) (c : Int) (p : Pt α) (ps : List (Pt α)) :
+    aggSpec o .last (fun _ => c) (p :: ps) = [(p :: ps).getLast (List.cons_ne_nil _ _)] := by
+  rw [aggSpec]
+  have hf : ∀ l : List (Pt α), List.filter (fun _ : Pt α => false) l = [] :=
+    fun l => List.filter_eq_nil_iff.mpr (by simp)
+  have ht : ∀ l : List (Pt α), List.filter (fun _ : Pt α => true) l = l :=
+    fun l => List.filter_eq_self.mpr (by simp)
+  simp [aggregate, hf, ht, aggSpec]
+
+/-- `newLimitArrayCursor`: the first point of what the cursor returns, then nothing -/
+theorem limit_drain (o : Ops α) (w : Win) (B : Nat) (chunks : List (List (Pt α))) (hne : ∀ c ∈ chunks, c ≠ [])
+    (fuel : Nat) (hfuel : 2 ≤ fuel) :
+    drain (Cursor.next B o w) fuel (Cursor.limit ⟨chunks, false⟩) =
+      some (match chunks.flatten with | [] => [] | p :: _ => [[p]]) := by
+  obtain ⟨n, rfl⟩ : ∃ n, fuel = n + 2 := ⟨fuel - 2, by omega⟩
+  cases chunks with
+  | nil => simp [drain, Cursor.next, Limit.next, pop]
+  | cons c cs =>
+    have hc : c ≠ [] := hne c (by simp)
+    cases c with
+    | nil => exact absurd rfl hc
+    | cons p ps => simp [drain, Cursor.next, Limit.next, pop]
+
+/-- **first / last over the whole range** (`every = MaxInt64`): the limit cursor over the
+    ascending (first) resp. descending (last) cursor. -/
+theorem C20_first_last_zero (B : Nat) (o : Ops α) (agg : Agg) (hagg : agg = .first ∨ agg = .last)
+    (shards : List (List (List (Pt α)))) (fuel : Nat) (hfuel : 2 ≤ fuel) :
+    ∃ arrs, drain (Cursor.next B o Win.zero) fuel (Cursor.newReq agg Win.zero shards) = some arrs ∧
+      arrs.flatten = aggSpec o agg Win.zero.stop shards.flatten.flatten := by
+  have hfl := flatten_filter_nonempty shards.flatten
+  have hne : ∀ c ∈ shards.flatten.filter (fun c => !c.isEmpty), c ≠ [] := by
+    intro c hc h; have := (List.mem_filter.mp hc).2; simp [h] at this
+  rcases hagg with rfl | rfl
+  · have hnew : Cursor.newReq .first Win.zero shards = Cursor.limit ⟨shards.flatten.filter (fun c => !c.isEmpty), false⟩ := by
+      simp [Cursor.newReq, Cursor.new, Win.zero]
+    rw [hnew, limit_drain o Win.zero B _ hne fuel hfuel, hfl]
+    refine ⟨_, rfl, ?_⟩
+    cases h : shards.flatten.flatten with
+    | nil => simp [aggSpec]
+    | cons p ps => simp [Win.zero, aggSpec_const_first]
+  · generalize hinp : shards.flatten.filter (fun c => !c.isEmpty) = inp at hfl hne
+    have hne' : ∀ c ∈ inp.reverse.map List.reverse, c ≠ [] := by
+      intro c hc
+      simp only [List.mem_map, List.mem_reverse] at hc
+      obtain ⟨d, hd, rfl⟩ := hc
+      intro h; exact hne d hd (by simpa using h)
+    have hnew : Cursor.newReq .last Win.zero shards = Cursor.limit ⟨inp.reverse.map List.reverse, false⟩ := by
+      simp [Cursor.newReq, Cursor.new, Win.zero, hinp]
+    have hrev : (inp.reverse.map List.reverse).flatten = shards.flatten.flatten.reverse := by
+      rw [← hfl, List.reverse_flatten, List.map_reverse]
+    rw [hnew, limit_drain o Win.zero B _ hne' fuel hfuel, hrev]
+    refine ⟨_, rfl, ?_⟩
+    cases h : shards.flatten.flatten with
+    | nil => simp [aggSpec]
+    | cons p ps =>
+      have hr : (p :: ps).reverse = (p :: ps).getLast (List.cons_ne_nil _ _) :: (p :: ps).dropLast.reverse := by
+        conv => lhs; rw [← List.dropLast_concat_getLast (List.cons_ne_nil p ps)]
+        simp
+      rw [hr]
+      simp [Win.zero, aggSpec_const_last]
+
+/-- **C20 on the model, request level, all seven aggregates.**  For every valid request window
+    (`every > 0`, including `MaxInt64` = whole range), every distribution of the time-ordered
+    points over shards and arrays, every block size `B ≥ 1`, every value arithmetic: the
+    statement checker accepts what the model returns. -/
+theorem C20_holdsOn [DecidableEq α] (B : Nat) (hB : 1 ≤ B) (o : Ops α) (agg : Agg)
+    (every offset : Int) (he : 0 < every)
+    (shards : List (List (List (Pt α)))) (hs : Sorted shards.flatten.flatten)
+    (fuel : Nat) (hfuel : shards.flatten.flatten.length + 1 < fuel) :
+    ∃ w, reqWin every offset = some w ∧
+      holdsOn o ⟨agg, reqW every offset, shards.flatten.flatten,
+        drain (Cursor.next B o w) fuel (Cursor.newReq agg w shards)⟩ = true := by
+  by_cases hfold : IsFold agg
+  · exact C20_holdsOn_partial B hB o agg hfold every offset he shards hs fuel (by omega)
+  · have hfl : agg = .first ∨ agg = .last := by
+      cases agg <;> simp [IsFold] at hfold ⊢
+    obtain ⟨w, hw1, hw2, hw3⟩ := reqWin_spec every offset he
+    refine ⟨w, hw1, ?_⟩
+    have hfl' := flatten_filter_nonempty shards.flatten
+    have hne : ∀ c ∈ shards.flatten.filter (fun c => !c.isEmpty), c ≠ [] := by
+      intro c hc h; have := (List.mem_filter.mp hc).2; simp [h] at this
+    by_cases hz : every = maxInt64
+    · -- whole range
+      have hwz : w = Win.zero := by
+        have : reqWin every offset = some Win.zero := by simp [reqWin, hz, maxInt64]
+        rw [this] at hw1; exact (Option.some.inj hw1).symm
+      subst hwz
+      obtain ⟨arrs, h1, h2⟩ := C20_first_last_zero B o agg hfl shards fuel (by omega)
+      simp only [holdsOn, h1, h2, hw3, decide_true]
+    · have hwz : w.isZero = false := by
+        have : reqWin every offset = some (Win.ofWindow ⟨every, every, offset⟩) := by
+          simp [reqWin, hz, Int.not_le.mpr he]
+        rw [this] at hw1; rw [← Option.some.inj hw1]; rfl
+      have hnew : Cursor.newReq agg w shards = Cursor.new agg w (shards.flatten.filter (fun c => !c.isEmpty)) := by
+        simp [Cursor.newReq, hwz]
+      rw [hnew]
+      rcases hfl with rfl | rfl
+      · obtain ⟨arrs, h1, h2, _⟩ := C20_first B hB o w hw2 hwz _ hne (by rw [hfl']; exact hs) fuel (by rw [hfl']; omega)
+        simp only [holdsOn, h1, h2, hfl', hw3, decide_true]
+      · obtain ⟨arrs, h1, h2, _⟩ := C20_last B hB o w hw2 hwz _ hne (by rw [hfl']; exact hs) fuel (by rw [hfl']; omega)
+        simp only [holdsOn, h1, h2, hfl', hw3, decide_true]
 
 -- non-vacuity: a concrete request (3 windows of `every = 10`, two shards, three arrays, B = 2)
 example : ∃ w, reqWin 10 3 = some w ∧
